@@ -1,1 +1,3 @@
 import MinterProofs.Ledger
+import MinterProofs.Moves
+import MinterProofs.Props.C01
